@@ -202,7 +202,8 @@ def main():
                     )
 
         if args.csv:
-            metadata = read_metadata(args.input, ["exptl", "refine"])
+            with open(args.input) as f:
+                metadata = read_metadata(f, ["exptl", "refine"])
 
             with open(args.csv, "w") as f:
                 writer = csv.writer(f)
